@@ -25,7 +25,7 @@ def impl_cfg(rules, rename_resets, max_ops, invs, prop=True):
 
 def impl_spec(ck):
     """Specification-level check of the derived state of JSONGrammar (lazily built views, copies)."""
-    depth = 5 if ck.thorough else 4
+    depth = 5 if ck.thorough else 3
     acts = ("AddTyped", "AddNamed", "AddSchema", "Rename", "Delete", "Unrequire", "Schema", "Validate", "ToJson",
             "Pickle", "Copy")
     r = ck.tlc("GrammarImpl", impl_cfg("coherent", True, depth, IMPL_INVS), workers=4, timeout=900)
@@ -41,7 +41,7 @@ def impl_spec(ck):
     out["rename_without_reset"] = {"refutes": r.violated, "trace_length": len(r.counterexample())}
     # the rules of the code as read: which clauses TLC refutes (design-level reproduction of the findings)
     todo = [("NoSharing", False), ("WellFormed", False), ("ExportCorrect", False), ("SchemaRequired", False),
-            ("SchemaAdds", True)] if ck.thorough else [("NoSharing", False), ("SchemaAdds", True)]
+            ("SchemaAdds", True)] if ck.thorough else []
     for inv, is_prop in todo:
         r = ck.tlc("GrammarImpl", impl_cfg("code", True, 4, [] if is_prop else [inv], prop=is_prop), workers=1,
                    timeout=600, expect_ok=False, count=False, coverage=False)
@@ -151,14 +151,21 @@ def shipped_files(ck, ref, oracle_cls):
     # files whose definition the lattice expresses: the specification's probes and verdicts
     # (names are arbitrary here: they are mapped onto the abstract names a, b, c, ... per file, 3 at a time)
     n_spec = 0
-    for rel, g, atoms, req in expressible:
+
+    def chunks(atoms, req):
         names = sorted(atoms)
         for i in range(0, len(names), 3):
             chunk = names[i:i + 3]
             amap = dict(zip(("a", "b", "c"), chunk))
             inv = {v: k for k, v in amap.items()}
-            key = (tuple(sorted((inv[n], (atoms[n],)) for n in chunk)), tuple(sorted(inv[n] for n in chunk if n in req)))
-            oracle.ensure([key])
+            yield names, chunk, amap, (tuple(sorted((inv[n], (atoms[n],)) for n in chunk)),
+                                       tuple(sorted(inv[n] for n in chunk if n in req)))
+
+    # one oracle run for all the definitions (and for one valid value per atom)
+    oracle.ensure(sorted({key for _, _, atoms, req in expressible for *_, key in chunks(atoms, req)}
+                         | {((("a", (atom,)),), ()) for atom in I.ATOM_SCHEMAS}))
+    for rel, g, atoms, req in expressible:
+        for names, chunk, amap, key in chunks(atoms, req):
             rest = {n: I.kind_value(_valid_kind(oracle, atoms[n])) for n in names if n not in chunk}
             for d, ok in oracle.probes[key]:
                 if any(n not in amap and n != "zz" for n in d):
